@@ -167,6 +167,11 @@ def gen_fp(rng, n, tier, fields=("Fq", "Fr")):
         ts += [(rng.randrange(p) << bits) | rng.getrandbits(bits) for _ in range(n // 2 + 1)]
         # T whose reduction lands exactly on p before the final subtraction: T = k*p*... choose T = p * m for small m
         ts += [p * m for m in (1, 2, (1 << bits) - 1, 1 << (bits - 1))]
+        # carry-ripple ties: low half R - k*p (the u*p additions clear it with a carry out) under upper halves with all-ones words
+        for k in list(range(1, 12)) + [rng.randrange(12, 1 << 20)]:
+            lo = (-k * p) % (1 << bits)
+            for hi in ((1 << 256) - 1, (1 << 64) - 1, ((1 << 64) - 1) << 64, ((1 << 128) - 1) << 64, (1 << (bits - 4)) - 1, p - 1, (1 << 192) - 1 - k, rng.getrandbits(64) | (((1 << 64) - 1) << 64)):
+                if hi < p: ts.append((hi << bits) | lo)
         for t in ts:
             if t < topT: L.append("fp_mred %s %s" % (F, hx(t, 2 * bits)))
         # random sampling with forced rejections
@@ -196,9 +201,11 @@ def gen_fp(rng, n, tier, fields=("Fq", "Fr")):
     return L
 
 # --------------------------------------------------------------------------- tower
+RINVQ = pow(RQ, -1, Q)      # the field element whose Montgomery REPRESENTATION is the integer 1
 def rfq(rng, special=True):
     if special and rng.random() < 0.25:
-        return rng.choice([0, 1, Q - 1, 2, Q - 2, (Q - 1) // 2])
+        # value boundaries, and elements whose stored (Montgomery) limbs are small integers / all-ones patterns
+        return rng.choice([0, 1, Q - 1, 2, Q - 2, (Q - 1) // 2, RINVQ, 2 * RINVQ % Q, (Q - RINVQ) % Q, ((1 << 380) - 1) * RINVQ % Q])
     return rng.randrange(Q)
 def e2(rng): return "%s %s" % (hq(rfq(rng)), hq(rfq(rng)))
 def e6(rng, shape=None):
@@ -242,6 +249,24 @@ def gen_tower(rng, n, tier):
         if pfx == "f12_" and tier != "thorough": powers = [1, 2, 3, rng.randrange(0, 14)]
         for kk in powers:
             L.append("%sfrob %s %d %s" % (pfx, gen(None), kk, rng.choice(["n", "a"])))
+    # inverses of elements whose NORM (a derived quantity) has the stored limbs 1, 2 or q-1 (value k/R): fast paths keyed on a computed
+    # intermediate "being one" must compare field elements, not stored limbs.  Fq2: a0^2 + a1^2 = k/R; embedded into Fq6 and Fq12;
+    # the scalars +-2^-192 (whose square is 1/R) at every level
+    z2s = "%s %s" % (hq(0), hq(0))
+    def emb6(x2): return " ".join([x2, z2s, z2s])
+    def emb12(x2): return emb6(x2) + " " + " ".join([z2s] * 3)
+    s192 = pow(2, -192, Q)
+    special2 = [(s192, 0), (Q - s192, 0), (0, s192), (0, Q - s192)]
+    for kk in (1, 2, Q - 1):
+        tgt = kk * RINVQ % Q; found = 0
+        while found < 2:
+            a1 = rng.randrange(Q); rhs = (tgt - a1 * a1) % Q
+            if pow(rhs, (Q - 1) // 2, Q) != 1: continue
+            a0 = pow(rhs, (Q + 1) // 4, Q); special2.append((a0, a1)); found += 1
+    for (a0, a1) in special2:
+        x2 = "%s %s" % (hq(a0), hq(a1))
+        L.append("f2_inv %s n" % x2); L.append("f2_inv %s a" % x2); L.append("f2_norm %s" % x2)
+        L.append("f6_inv %s n" % emb6(x2)); L.append("f12_inv %s n" % emb12(x2))
     # zero / one / minus one / u inputs
     for a in (zero2, one2, m12, u):
         for b in (zero2, one2, m12, u):
@@ -321,6 +346,17 @@ def gen_curve(rng, n, tier):
                         L.append("%saddm %s %s n" % (pfx, same_b, E.aff(s_, rng, canon=True)))
                     L.append("%saddm %s %s a" % (pfx, same_b, E.aff(p, rng))); L.append("%saddm %s %s n" % (pfx, same_b, E.aff(E.neg(p), rng)))
                     L.append("%sdbl %s n" % (pfx, same_b)); L.append("%stoaff %s" % (pfx, same_b))
+        # Jacobian objects whose STORED X, Y equal the affine coordinates of a point b but whose z is a sixth root of unity t != 1:
+        # (x, y, t) is the point (x/t^2, y/t^3) = -b (t = -1), an endomorphism image of b (t = w, w^2) or its negative (t = -w, -w^2);
+        # fast paths keyed on raw coordinate equality confuse it with b
+        for p in [q_ for q_ in pool if q_ is not None][:3]:
+            for t in (Q - 1, w_, w_ * w_ % Q, (Q - w_) % Q, (Q - w_ * w_ % Q) % Q):
+                raw = F.hex(p[0]) + " " + F.hex(p[1]) + " " + F.hex(emb(t))
+                one_rep = F.hex(p[0]) + " " + F.hex(p[1]) + " " + F.hex(F.one)
+                L.append("%saddm %s %s n" % (pfx, raw, E.aff(p, rng))); L.append("%saddm %s %s a" % (pfx, raw, E.aff(p, rng)))
+                L.append("%sadd %s %s n" % (pfx, raw, one_rep)); L.append("%sadd %s %s a" % (pfx, one_rep, raw))
+                L.append("%seq %s %s" % (pfx, raw, one_rep)); L.append("%seq %s %s" % (pfx, one_rep, raw))
+                L.append("%sdbl %s n" % (pfx, raw)); L.append("%stoaff %s" % (pfx, raw))
         # same point, different representatives given to add / eq
         for p in pool:
             L.append("%sadd %s %s n" % (pfx, J(p, "rand"), J(p, "rand")))
@@ -341,6 +377,58 @@ def gen_curve(rng, n, tier):
         # 2-torsion-like input: y = 0 is not on these curves over Fq (b=4: x^3=-4 has a root?) -- use doubling of points with y=0 only if exists
     return L
 
+
+# --------------------------------------------------------------------------- crafted curve inputs
+_CRAFT = {}
+def crafted_nonresidue_xs(count=2):
+    """G1 abscissas x' with x'^3 + 4 a NON-residue for which the 'square root' candidate y' = (x'^3+4)^((q+1)/4) gives a pair
+    (x', y') = (w^2 x0, w^3 y0) of order r on the isomorphic curve y^2 = x^3 + 4 w^6: a decoder that skips the residue test
+    and relies on the subgroup test alone accepts them (the group formulas do not involve b)"""
+    if "xs" in _CRAFT: return _CRAFT["xs"][:count]
+    e = 0; m = Q - 1
+    while m % 3 == 0: m //= 3; e += 1
+    g = 2
+    while pow(g, (Q - 1) // 3, Q) == 1: g += 1
+    z = pow(g, m, Q); z3 = pow(z, 3, Q)
+    def cuberoot(a):
+        am = pow(a, m, Q); cur = 1; j = None
+        for t in range(3 ** (e - 1)):
+            if cur == am: j = t; break
+            cur = cur * z3 % Q
+        if j is None: return None
+        b = a * pow(pow(z, 3 * j, Q), Q - 2, Q) % Q
+        c = pow(b, pow(3, -1, m), Q) * pow(z, j, Q) % Q
+        return c if pow(c, 3, Q) == a else None
+    out = []; P = None
+    for k in range(1, 400):
+        P = E1.add(P, E1.gen)
+        x0, y0 = P
+        t = (-4 * pow((2 * x0 ** 3 + 4) % Q, Q - 2, Q)) % Q
+        if pow(t, (Q - 1) // 6, Q) != 1: continue
+        sroot = pow(t, (Q + 1) // 4, Q)
+        if sroot * sroot % Q != t: continue
+        u = cuberoot(sroot)
+        if u is None or pow(u, 6, Q) != t: continue
+        xp = u * u * x0 % Q
+        if pow((xp ** 3 + 4) % Q, (Q - 1) // 2, Q) != Q - 1: continue
+        out.append(xp)
+        if len(out) >= 3: break
+    _CRAFT["xs"] = out
+    return out[:count]
+
+# valid G1 points one of whose coordinates TIES with the modulus in its leading 32 bits (0x1a0111ea): k*G for these k
+TOPWORD_TIE_SCALARS = (0x12612e0f9587b98ab9238defb45600003b32ffffa97d, 0xcace7bf2fa3534e934eabb4ef9b3ffff44c9ffff8dd6, 0x3de0000002430)
+
+def iso_element(b, g2, t=2):
+    """uncompressed element bytes -> (t^2 x, t^3 y): off the curve, still of order r under the group formulas"""
+    n = 4 if g2 else 2
+    if b[0] & 0x40: return None
+    cs = [int.from_bytes(b[48 * i:48 * i + 48], "big") for i in range(n)]
+    cs[0] &= (1 << 381) - 1
+    half = n // 2
+    out = [(c * (t * t if i < half else t * t * t)) % Q for i, c in enumerate(cs)]
+    return b"".join(c.to_bytes(48, "big") for c in out)
+
 # --------------------------------------------------------------------------- scalar multiplication
 def scalar_boundaries(rng, bits=256):
     top = 1 << bits
@@ -357,6 +445,14 @@ def scalar_boundaries(rng, bits=256):
         for bound in (cap % top, R, 2 * R):
             tl = (bound >> 192) << 192
             v += [tl, tl + (1 << 192) - 1, tl + rng.getrandbits(192), (tl + (bound & ((1 << 192) - 1)) + rng.getrandbits(120)) % top]
+    if bits == 256:
+        # GLV intermediate round(b2) = floor(v1_2*k/r) landing on 64-bit limb boundaries (low limb 0 / all-ones, high limb 0 / nonzero)
+        V12 = 0xac45a4010001a40200000000ffffffff
+        for m in (1, 2, 1 << 62, (1 << 63) + 12345, rng.randrange(1, V12 >> 64)):
+            for b2 in (m << 64, (m << 64) - 1, (m << 64) + 1):
+                if 0 < b2 < V12:
+                    kk = -(-b2 * R // V12)
+                    v += [kk % top, (kk + 1) % top, (kk + R) % top]
     if bits == 256:
         # a leading bit-prefix that is an exact multiple of |x| followed by many further bits (the partial remainder of the
         # bit-serial division by |x| then equals the divisor exactly), also after the subtraction of r
@@ -615,6 +711,20 @@ def gen_encoding(rng, n, tier):
                 iso = (F.mul(t2, p[0]), F.mul(t3, p[1]))
                 for chk in ("1", "0"):
                     L.append("dec %s u %s %s" % (g, chk, bytes(enc(iso, "u")).hex()))
+        if g == "g1":
+            # abscissas of no curve point whose root candidate has order r on an isomorphic curve (see crafted_nonresidue_xs)
+            for xp in crafted_nonresidue_xs(2):
+                for gb in (0, 1):
+                    b = bytearray(xp.to_bytes(48, "big")); b[0] |= 0x80 | (0x20 if gb else 0)
+                    for chk in ("1", "0"): L.append("dec g1 c %s %s" % (chk, bytes(b).hex()))
+            # valid points whose x (or y) ties with q in the leading word: every spelling must be accepted and round-trip
+            for k in TOPWORD_TIE_SCALARS:
+                pt = E1.mul(k, E1.gen)
+                for pp in (pt, E1.neg(pt)):
+                    for form in ("c", "u"):
+                        L.append("enc g1 %s %s" % (form, E1.aff(pp, rng, canon=True)))
+                        gbit = 1 if pp[1] > (Q - pp[1]) % Q else 0
+                        for chk in ("1", "0"): L.append("dec g1 %s %s %s" % (form, chk, bytes(enc(pp, form, gbit)).hex()))
         # small x: guaranteed x + q < 2^381, on-curve, cofactor-cleared so in the subgroup
         for _ in range(max(2, n // 4)):
             L.append("dec %s c 1 %s" % (g, bytes(rng.getrandbits(8) for _ in range(xs)).hex()))
@@ -1028,6 +1138,28 @@ def expand_unmarshal(lines, outs, rng, tier):
             for v in (R, R - 1, R + 1, (1 << 256) - 1, 0):
                 extra.append("%s %s %s %d %s" % (op, ty, comp, rng.randrange(2), v.to_bytes(32, "little").hex()))
             continue
+        # elements of the fixed-layout objects replaced by off-curve points of order r (uncompressed: (4x, 8y); compressed G1: an
+        # abscissa of no curve point whose root candidate has order r on an isomorphic curve): validating unmarshal must refuse
+        layouts = {("wk_um", "msk"): ["g1"], ("wk_um", "sig"): ["g1", "g2"], ("wk_um", "ct"): [576, "g2", "g1"],
+                   ("lq_um", "id"): ["g1"], ("lq_um", "sk"): ["g1"], ("lq_um", "ct"): ["g2"], ("lq_um", "params"): ["g2", "g2"]}
+        lay = layouts.get((op, ty))
+        if lay:
+            off = 0
+            for el in lay:
+                if isinstance(el, int): off += el; continue
+                size = (48 if el == "g1" else 96) * (1 if comp == "1" else 2)
+                if off + size <= len(b):
+                    if comp == "0":
+                        iso = iso_element(b[off:off + size], el == "g2")
+                        if iso is not None:
+                            m = bytearray(b); m[off:off + size] = iso
+                            extra.append("%s %s %s 1 %s" % (op, ty, comp, bytes(m).hex()))
+                    elif el == "g1":
+                        for xp in crafted_nonresidue_xs(1):
+                            for gb in (0, 1):
+                                m = bytearray(b); e2 = bytearray(xp.to_bytes(48, "big")); e2[0] |= 0x80 | (0x20 if gb else 0); m[off:off + 48] = e2
+                                extra.append("%s %s %s 1 %s" % (op, ty, comp, bytes(m).hex()))
+                off += size
         step = 40 if tier != "thorough" else 12
         poss = sorted(set([0, 1, len(b) - 1] + list(range(2, len(b), step)) + [rng.randrange(len(b)) for _ in range(4)]))
         for pos in poss:
@@ -1121,6 +1253,10 @@ def gen_asm(rng, n, tier):
             # T ≡ v·R (mod q) with T < q·R: take T = v·R mod q·... simplest: T = (v * R) % (q*R) is v*R itself when v<q
             ts.append(v << bits)
             ts.append(((v << bits) + Q * rng.getrandbits(380)) % topT)
+        for k in list(range(1, 12)) + [rng.randrange(12, 1 << 20)]:
+            lo = (-k * Q) % top
+            for hi in ((1 << 256) - 1, (1 << 64) - 1, ((1 << 64) - 1) << 64, ((1 << 128) - 1) << 64, (1 << 380) - 1, Q - 1, (1 << 192) - 1 - k, rng.getrandbits(64) | (((1 << 64) - 1) << 64)):
+                if hi < Q: ts.append((hi << bits) | lo)
         for t in ts:
             if t < topT: L.append("asm mred %s %s" % (fam, hx(t, 768)))
     return L
